@@ -603,9 +603,9 @@ func TestVerifC15(t *testing.T) {
 	}
 	start := 0
 	fmt.Sscanf(os.Getenv("C15_START"), "%d", &start)
-	ncorpus := 4
+	ncorpus := 30
 	if thorough {
-		ncorpus = 12
+		ncorpus = 100
 	}
 	runs += ncorpus
 	maxInFlight := c15MaxInFlight
@@ -615,9 +615,10 @@ func TestVerifC15(t *testing.T) {
 			continue // already executed by an earlier invocation that stopped on a stuck run
 		}
 		if i < ncorpus {
-			// corpus: the minimal history of the known bus-lock deadlock
-			// (known_findings/C15.json); whether it strikes depends on sync.Mutex
-			// hand-off, so it is attempted a few times with real time passing
+			// corpus: the minimal history of the bus-lock deadlock repaired by
+			// 8aeecd5 (withNode/tryDropNode held basicBus.lk while waiting for n.lk);
+			// it struck in about 1 of 3 attempts, depending on sync.Mutex hand-off, so
+			// it is attempted many times with real time passing and must complete
 			c15MaxInFlight, c15SpinBeforeStimulus = 1<<20, 60000
 			k := 0
 			line, _, _ := c15Execute(t, c15DeadlockCfg, func(r *c15Run) (c15Stim, bool) {
